@@ -49,6 +49,10 @@ def gen_case(g):
         U[rng.integers(0, T), rng.integers(0, m)] = g.choice([1e39, -1e39, 1e120, 3e300])
         c["U"] = U.tolist()
         c["mode"] = "reset_to" if c["mode"] in ("calls", "runs1") else c["mode"]
+    if g.chance(0.25):
+        # a value frozen on the reservoir as what ITS feedback receivers read (state proxy; what Node.with_feedback or a
+        # teacher-forced run installs on a sender), outside the box: the reservoir's own dynamics go on from its state
+        c["frozen_proxy"] = g.choice([3.0, -2.5, 10.0])
     if g.chance(0.3):
         c["lr_first"] = g.choice([v for v in (1.0, 0.5, 0.25, 0.9, 0.1) if v != c["lr"]])
         c["lr_via"] = g.choice(["set_param", "hypers", "attr"])
@@ -129,6 +133,8 @@ def run_from(c, x0):
             r2.lr = lr
         else:
             r2.set_param("lr", lr)
+    if c.get("frozen_proxy") is not None:
+        r.set_state_proxy(np.full((1, c["n"]), float(c["frozen_proxy"])))
     mine = np.array(x0, dtype=float).reshape(1, -1)       # the caller's own array
     keep = mine.copy()
     if c["mode"] == "from_state":
